@@ -24,6 +24,8 @@ pub mod c08;
 pub mod c11;
 #[cfg(feature = "c01")]
 pub mod c01;
+#[cfg(feature = "c07")]
+pub mod c07;
 #[cfg(feature = "c05")]
 pub mod c05;
 #[cfg(feature = "c09")]
@@ -48,6 +50,8 @@ pub fn tables() -> Vec<&'static [(&'static str, fn())]> {
     v.push(c11::TABLE);
     #[cfg(feature = "c01")]
     v.push(c01::TABLE);
+    #[cfg(feature = "c07")]
+    v.push(c07::TABLE);
     #[cfg(feature = "c05")]
     v.push(c05::TABLE);
     #[cfg(feature = "c09")]
